@@ -42,6 +42,7 @@ def run(P, rep, tier):
     rep.attempt(r1_emission_order, P, rep, ctx)
     rep.attempt(r2_case_analysis, P, rep, ctx)
     rep.attempt(r3_status, P, rep, ctx)
+    rep.attempt(r4_wiring, P, rep, ctx)
     rep.floor("C18.R1", 5)
     rep.floor("C18.R2", 12)
     rep.floor("C18.R3", 5)
@@ -275,6 +276,71 @@ def r2_case_analysis(P, rep, ctx):
 
 
 # ------------------------------------------------------------------------------------------- R3
+def r4_wiring(P, rep, ctx):
+    """The small functions everything else is read through: the diff object holds the comparison of exactly the two given
+    trees; the kind of an entry (directory / symlink / file / nothing) is decided by its hashsum-tree value; annotate lists
+    every path of the directory that is not in the diff as unchanged."""
+    fi = P.func(f"{D}.DirDiff.compare")
+    f = F(ctx, fi)
+    pv, cv = fi.params[1], fi.params[2]
+    rets = [v for _, v in f.returns() if v is not None]
+    rv = rets[0].id if len(rets) == 1 and isinstance(rets[0], ast.Name) else None
+    st = [i for i, v, b in f.stores(f"{rv}._diff_root") if norm(f.g.nodes[i].stmt.value) in (f"DiffNode.compare({pv}, {cv}, Path(''))", f"DiffNode.compare({pv}, {cv}, Path())", f"DiffNode.compare({pv}, {cv}, Path('.'))")] if rv else []
+    rep.check(bool(st) and f.hit_before(f.g.exit, nodes=st), "C18.R4", fi.qual, "the diff object stores DiffNode.compare(prev, curr, <root path>) before it is returned", fi.loc(), construct="DirDiff.compare root",
+              message="DirDiff.compare does not store the comparison of (prev, curr) as the root of the returned object: every diff is empty / belongs to other trees")
+    # kind of an entry
+    tfi = P.func(f"{D}.DiffNode._type")
+    tf = F(ctx, tfi)
+    ev = tfi.params[1]
+    try:
+        tp = tf.value_paths()
+    except ValueError as e:
+        raise AnalysisError(f"C18.R4: _type: {e}")
+    ok = bool(tp)
+    seen = set()
+    SYM = (f"{ev}.find('symlink:') == 0", f"{ev}.startswith('symlink:')")
+    for lits, v, n_ in tp:
+        d = dict(lits)
+        is_dir = d.get(f"isinstance({ev}, dict)")
+        truthy = d.get(ev)
+        sym = next((d[k] for k in SYM if k in d), None)
+        t = norm(v)
+        if is_dir:
+            want = "DiffNode.ObjType.directory"
+        elif truthy is False:
+            want = "None"
+        elif truthy and sym is True:
+            want = "DiffNode.ObjType.symlink"
+        elif truthy and sym is False:
+            want = "DiffNode.ObjType.file"
+        else:
+            ok = False
+            continue
+        seen.add(want)
+        ok = ok and t == want
+    rep.check(ok and len(seen) == 4, "C18.R4", tfi.qual, "dict -> directory, 'symlink:..' -> symlink, other non-empty value -> file, nothing -> None", tfi.loc(), construct="DiffNode._type table",
+              message="DiffNode._type does not map hashsum-tree values to (directory | symlink | file | None) as the diff logic assumes: kinds of changed entries are misreported")
+    # annotate: everything in the directory that is not in the diff is listed as unchanged (None)
+    an = P.func(f"{D}.DirDiff.annotate")
+    af = F(ctx, an)
+    bd = an.params[1]
+    okl = False
+    for _, rv_ in af.returns():
+        if rv_ is None or (isinstance(rv_, ast.Dict) and not rv_.keys):
+            continue
+        db = af.dict_build(rv_)
+        if db is None:
+            continue
+        rest = [fm for fm in db["families"][1:] if fm["val"] == "None"]
+        okl = len(db["families"]) == 2 and len(rest) == 1 and f"dir_paths({bd})" in rest[0]["src"] and rest[0]["key"] == f"{bd} / str(V0)" and MM.equivalent(rest[0]["kept"], "True") and db["families"][0]["key"] == f"{bd} / str(V0)" and db["families"][0]["val"] == "V1"
+    rep.check(okl, "C18.R4", an.qual, "annotate = the diff nodes, then every other path of the directory with None", an.loc(), construct="annotate: unchanged paths", message="annotate does not list every path of the directory that is not part of the diff as unchanged (None) under base_dir / path")
+    empty = af.tests("self._diff_root is None")
+    e_rets = [i for i, v in af.returns() if isinstance(v, ast.Dict) and not v.keys]
+    full = [i for i, v in af.returns() if not (isinstance(v, ast.Dict) and not v.keys)]
+    rep.check(bool(empty) and bool(e_rets) and bool(full) and af.all_hit_before(e_rets, edges=empty) and all(af.hit_before(af.g.exit, nodes=e_rets, src_edge=e) for e in empty), "C18.R4", an.qual, "an empty diff annotates nothing; a non-empty one is never cut short", an.loc(), construct="annotate: empty diff",
+              message="annotate returns the empty listing for a non-empty diff (or goes on with an empty one)")
+
+
 def r3_status(P, rep, ctx):
     fi = P.func(f"{D}.DiffNode.status")
     f = F(ctx, fi)
